@@ -104,7 +104,8 @@ PLAN["C10"] = other(
     "getIntervalsInInterval (crop truncated) that intersection/mergeLabels/difference are built on, are proved against "
     "their specs; union (interval and point tiers) and difference are proved to return a well-formed tier without "
     "mutating their operands for all pairs of tiers (loop invariant rule R-INV over the insertEntry / eraseRegion "
-    "contracts). Bounded: all pairs of tiers on a 5-cell grid x 2 labels against the labelled-time algebra.",
+    "contracts); intersection and mergeLabels return a well-formed tier or raise TextgridStateError, operands "
+    "untouched; mergeTiers keeps names/order/spans. Bounded: all pairs of tiers on a 5-cell grid x 2 labels against the labelled-time algebra.",
     "Set operations obey the algebra of labelled time for all 571x571 grid pairs (+6-cell pairs in thorough, random "
     "larger pairs); their kernels, and well-formedness of union / difference results, are proved for all inputs.",
     ["c10_setops"])
@@ -216,10 +217,11 @@ PLAN["C05"] = other(
     "TextgridStateError / TimelessTextgridTierException), and crop, editTimestamps, insertSpace, appendTier, "
     "eraseRegion (no shrink; points both), insertEntry are each proved to return / leave a well-formed tier on every "
     "path (ensures valid, in-span, stripped, disjoint, sorted), raising only praatio errors. Bounded: random histories "
-    "of all 15 operations (length <= 12) incl. the operations not under contract (intersection, mergeLabels, morph, "
-    "interval dejitter, interval shrink). union (both tier classes) and difference are proved to return a "
-    "well-formed tier by carrying the class invariant through their loops (rule R-INV); PointTier.dejitter and "
-    "deleteEntry likewise preserve it.",
+    "of all 15 operations (length <= 12) incl. the operations not under contract (morph, interval dejitter, interval "
+    "shrink). union (both tier classes) and difference are proved to return a well-formed tier by carrying the class "
+    "invariant through their loops (rule R-INV); intersection and mergeLabels are proved to return a well-formed tier "
+    "or raise TextgridStateError whatever their loops collect (rule R-HAVOC + the validating constructor); "
+    "PointTier.dejitter, deleteEntry, TextgridTier.new and mergeTiers likewise preserve it.",
     "Every tier produced by an operation under contract is well-formed for all inputs (invariant preservation, hence "
     "all histories of those operations); the remaining operations are covered by bounded histories.",
     ["c05_histories"])
@@ -292,6 +294,10 @@ CANARIES = [
      "target": "praatio.data_classes.textgrid.Textgrid.appendTextgrid",
      "old": "if onlyMatchingNames is False:", "new": "if onlyMatchingNames is True:",
      "config": ["ka=1,kb=1,onlyMatchingNames=True", "ka=1,kb=1,onlyMatchingNames=False"]},
+    {"name": "intersection-touches-receiver", "props": ["C10", "C05", "C13"], "file": IT,
+     "target": ITC + ".intersection",
+     "old": "        retTier = self.new(newName, retEntryList)\n\n        return retTier\n\n    def mergeLabels(",
+     "new": "        retTier = self.new(newName, retEntryList)\n        self.minTimestamp = retTier.minTimestamp\n\n        return retTier\n\n    def mergeLabels("},
     {"name": "union-raw-append", "props": ["C10", "C05"], "file": "praatio/data_classes/textgrid_tier.py",
      "target": "praatio.data_classes.textgrid_tier.TextgridTier.union",
      "old": "        retTier.sort()\n\n        return retTier", "new": "        retTier._entries.reverse()\n\n        return retTier",
